@@ -161,7 +161,7 @@ def run_checks(d, checks, tier, keep=None):
                 finally:
                     fcntl.flock(lock, fcntl.LOCK_UN)
                     lock.close()
-            with ThreadPoolExecutor(max_workers=min(len(checks), 3)) as ex:
+            with ThreadPoolExecutor(max_workers=max(1, min(len(checks), 3))) as ex:
                 for c, r in ex.map(one, checks):
                     res[c] = r
         finally:
